@@ -144,5 +144,31 @@ func init() {
 		rep("a | ", 2000)+"b", rep("a && ", 2000)+"b", rep("! ", 50)+"a", rep("<<E ", 100)+"\n"+rep("E\n", 100), "echo "+rep("w", 70000), "echo "+rep("é", 5000), rep("a\n", 3),
 		"case x in "+rep("a) b;; ", 500)+"esac", rep("f() ", 100)+"{ a; }", rep("((", 100), "$(("+rep("(", 200)+"1"+rep(")", 200)+"))", rep("x=1 ", 1000)+"cmd",
 		rep("\\\n", 500)+"a", "a "+rep("# c\n", 3), rep("'", 1001), rep("\"", 1001),
+		// nesting deeper than 1000, also inside words the lexer renders through the printer (here-document delimiter / body)
+		"cat <<E\n$("+rep("(", 1100)+"a"+rep(")", 1100)+")\nE\n", "cat <<E\n$("+rep("{ ", 1100)+"a;"+rep(" }", 1100)+")\nE\n",
+		"cat <<E\n"+rep("$(", 400)+"a"+rep(")", 400)+"\nE\n", "cat <<\"$("+rep("(", 1100)+"a"+rep(")", 1100)+")\"\nx\n", rep("(", 1100)+"a"+rep(")", 1100), rep("{ ", 1100)+"a;"+rep(" }", 1100),
+		rep("if a; then ", 1100)+"b"+rep("; fi", 1100), rep("$(", 1100)+"a"+rep(")", 1100),
 	)
 }
+
+// BoundaryTemplates: inputs whose rendering/reading crosses the 4096-byte buffers used by bufio at a
+// position controlled by the padding length n (C01 sweeps n around 4096 and 8192).
+func BoundarySweep(t, n int) string {
+	pad := strings.Repeat("A", n)
+	switch t {
+	case 0:
+		return "cat <<E\n$(\necho " + pad + "\nb\n)\nE\n" // multi-line substitution at column 1 of a body line
+	case 1:
+		return "cat <<" + pad + "\nx\n" + pad + "\n" // giant delimiter
+	case 2:
+		return "cat <<E\n" + pad + "$(a\nb) $((1 +\n2))\nE\n"
+	case 3:
+		return "echo " + pad + " $(a\nb) \"" + pad + "\"\n"
+	case 4:
+		return "cat <<-E\n\t$(\n{ echo " + pad + "\n}\n)\n\tE\n"
+	default:
+		return "a # " + pad + "\n" + pad + " é\n"
+	}
+}
+
+const BoundaryTemplates = 6
